@@ -289,9 +289,12 @@ def check_case_c32(eoc, ops, recs):
        transaction and reactivates the session
     R4 every instance that was persistent at the last commit and has not been expunged since
        is persistent again (same identity key) once rollback() has run
+    R5 (every rollback, also of a SAVEPOINT) an instance of the last commit that is persistent,
+       unexpired and unmodified shows the values of its row
     """
     committed = []
     committed_persistent = {}
+    committed_rows_of = set()  # instances persistent at the last commit and attached ever since
     pending_failure = False
     failure_at = -2
     prev = None
@@ -301,6 +304,22 @@ def check_case_c32(eoc, ops, recs):
         kind = op[0]
         objs = r["objs"]
         cur = [state_letter(o) for o in objs]
+        committed_rows_of = {i for i in committed_rows_of if cur[i] in "SD"}
+        if kind in ("expunge", "expunge_all", "close", "mt", "mtd", "merge"):
+            committed_rows_of = set()
+        # R5: whatever a rollback (of the transaction, of a SAVEPOINT, or the one inside a failed
+        # flush) leaves persistent and unexpired shows the values of its row: here the loaded
+        # primary-key attribute equals the identity key (values written by rolled-back UPDATEs
+        # must have been expired)
+        if kind in ("rollback", "nrollback") or r["res"] in FLUSH_ERRORS:
+            for i, o in enumerate(objs):
+                if (i in committed_rows_of and cur[i] == "S" and not o["expired"]
+                        and not o["modified"] and o.get("loaded_pk") is not None and o["loaded_pk"] != o["key"]):
+                    in_map = (o["key"], i) in [tuple(x) for x in r["imap"]]
+                    return dict(i=j, check="R5", obj=i,
+                                sig="unexpired-instance-keeps-rolled-back-value" if in_map else "instance-evicted-from-identity-map-by-key-restoration-keeps-rolled-back-value",
+                                detail="after %s instance %d is persistent, not expired, not modified, identity key %s, but its loaded primary-key attribute is %s" % (
+                                    ":".join(str(x) for x in op), i, o["key"], o["loaded_pk"]))
         nested_before = prev["txn"][1] if prev else 0
         if r["res"] in FLUSH_ERRORS and nested_before == 0 and (prev is None or prev["txn"][2]):
             if r["new"] or r["deleted"] or "P" in cur:
@@ -329,6 +348,7 @@ def check_case_c32(eoc, ops, recs):
                                 detail="instance %d was persistent with key %s at the last commit; after the failed flush + rollback it is %s with key %s" % (i, k, cur[i], objs[i]["key"]))
             pending_failure = False
         if r["res"] == "ok" and kind == "commit":
+            committed_rows_of = {i for i, o in enumerate(objs) if cur[i] == "S"}
             committed = list(r["db"])
             committed_persistent = {i: o["key"] for i, o in enumerate(objs) if cur[i] == "S"}
             pending_failure = False
@@ -353,6 +373,8 @@ def check_case_tokens(eoc, ops, recs):
        instance for that key; an instance under another token is never returned
     K3 a query executed with identity_token=t returns, for every row, the identity map's
        instance for (pk, t)
+    K4 the identity token of an instance never changes (detached instances incl. pickle round
+       trips, re-attached with add, changed and flushed)
     """
     prev = None
     for j, (op, r) in enumerate(zip(ops, recs)):
@@ -363,6 +385,17 @@ def check_case_tokens(eoc, ops, recs):
         objs = r["objs"]
         cur = [state_letter(o) for o in objs]
         imap = {(k, t): i for k, t, i in r["imap_t"]}
+        # K4: the identity token of an instance never changes (a flush may switch the primary key
+        # part of the identity key, never the token: Session.get / queries under that token would
+        # no longer find the instance and load a second one for the same row)
+        if prev is not None:
+            for i, o in enumerate(objs):
+                if i < len(prev["objs"]):
+                    po = prev["objs"][i]
+                    if po["key"] is not None and o["key"] is not None and po["token"] != o["token"]:
+                        return dict(i=j, check="K4", sig="identity-token-of-instance-changed", obj=i,
+                                    detail="instance %d had identity (%s, %r), after %s it has (%s, %r)" % (
+                                        i, po["key"], po["token"], ":".join(str(x) for x in op), o["key"], o["token"]))
         for (k, t), i in imap.items():
             if not (0 <= i < len(objs)) or cur[i] not in "SD" or objs[i]["key"] != k or objs[i]["token"] != t:
                 return dict(i=j, check="K1", sig="imap-entry-key-token-mismatch",
